@@ -131,3 +131,30 @@ Fixpoint after_barrier (s : list instr) : list instr :=
   | None :: r => r
   | [] => []
   end.
+
+(* ---- canonical order and positional conflict freedom of per-core streams ------------------------ *)
+Definition has_barrier (s : list instr) : bool := existsb is_barrier s.
+
+(* the ops of the current phase, core after core *)
+Definition cur_phase (ss : streams) : list mop := flat_map upto_barrier ss.
+
+(* phase after phase, inside a phase core after core (fuel > number of barriers) *)
+Fixpoint seq_order (fuel : nat) (ss : streams) : list mop :=
+  match fuel with
+  | O => []
+  | S f => cur_phase ss ++ (if existsb has_barrier ss then seq_order f (map after_barrier ss) else [])
+  end.
+
+(* ops of different streams (cores) do not conflict *)
+Definition free2 (p q : list mop) : bool := forallb (fun a => forallb (fun b => negb (conflictb a b)) q) p.
+Fixpoint xfree (l : list (list mop)) : bool :=
+  match l with
+  | [] => true
+  | p :: r => forallb (free2 p) r && xfree r
+  end.
+Fixpoint xfree_all (fuel : nat) (ss : streams) : bool :=
+  match fuel with
+  | O => true
+  | S f => xfree (map upto_barrier ss) &&
+           (if existsb has_barrier ss then xfree_all f (map after_barrier ss) else true)
+  end.
